@@ -34,6 +34,9 @@ const TYPED_CONTEXTS: &[(&str, &[&str])] = &[
     ("a = @ { =0 => 0x01 | 1 }, {}", &["0", "1"]),
     ("a = @ { =0 => A[1] | B }, {}", &["0", "1"]),
     ("a = @ { =0 => A[1] | B }, a { {} }", &["0", "1"]),
+    // a sequence whose early step can be nil, followed by a never-nil step and a last step
+    ("g = #'int { =0 => [] | 7 }, f = #'int { $ g, 5, {} }, @ f", &["0", "1"]),
+    ("g = #'int { =0 => [] | 7 }, f = #'int { $ g, 5, 6 => {} | 8 }, @ f", &["0", "1"]),
     // a union with a variant that has no fields at all
     ("f = #('int | A[x: 'int]) { {} }, @ f", &["5", "A[x: 7]"]),
     // a runtime test against a partial type (through an alias) that a variant merely overlaps:
